@@ -16,6 +16,36 @@ prop("C01", True, "model_checking",
      "Exhaustive within stated bounds (strings up to 4-10 code points over 10 family alphabets x up to 7 bases), exploration beyond them through recorded traces; equality of failure flag, serialization and all nine component getters through all three entry points.",
      TB + "; IDNA mapping taken as given.", "DESIGN.md section 4/C01")
 
+HT = "history (H-mode) families of the object machine spec/UrlApi.tla: bounded trees + closure (VIEW = abstract state) emitted by TLC, every state/transition replayed on the real API with all live handles projected after every step"
+prop("C03", True, "model_checking",
+     "TLC invariant RoundTrip on every parser output; expected re-parse result computed by the spec for every state of the setter trees/closure; replay re-parses the real serialization",
+     "Exhaustive within the bounds of the C01 parse families and the C05 setter families. Parser outputs must re-parse to themselves (TLC proves the same of the spec); after setters the code must re-parse exactly as the standard does, which also covers the standard's own non-round-tripping states (computed, not hard-coded).",
+     TB + "; IDNA-dependent hosts are excluded from E/H families (covered by recorded traces).", "DESIGN.md section 4/C03")
+prop("C04", True, "model_checking",
+     "TLC invariants WellFormed/ComponentsOk/CompositionG/DerivedG on every reachable state of the object machine and the parse families; " + HT,
+     "The invariants are established on the specification by TLC over closures and bounded trees (setters, resolve of further references, clone); the code is bound by equality of Href, Href(true), the nine components, Scheme, Query, Fragment, OpaquePath, IsSpecialScheme with the specification state after every step.",
+     TB, "DESIGN.md section 4/C04")
+prop("C05", True, "model_checking",
+     "TLA+ transcription of the nine API setters (self-tested on 247 WPT vectors); " + HT,
+     "All setter histories up to depth 2-3 over value alphabets built to hit every guard and early return, from 17 start URLs, plus closures under seed-chosen op sub-alphabets; equality of serialization and the nine components after every call.",
+     TB, "DESIGN.md section 4/C05")
+prop("C11", True, "model_checking",
+     "list machine (FormUrlencoded.tla + UrlApi.tla) explored by TLC; stored list via snapshot hook, readers, Href and the codec law evaluated on the real code after every step",
+     "Closure and bounded trees over append/delete/set/sort/sortAbsolute with delimiter-bearing names/values; every query string over the delimiter alphabet up to the bound is parsed and its list compared. The library's serializer is modelled as a named deviation; the codec law is evaluated on the real code and predicted by the spec; its known failure (finding F03) is characterised by a spec predicate.",
+     TB + "; the verif-tag snapshot hook (reads the stored list without write-through).", "DESIGN.md section 4/C11")
+prop("C12", True, "model_checking",
+     "UrlApi.tla Sync / WriteThrough; " + HT,
+     "All interleavings (bounded trees + closure) of SearchParams mutations, SetSearch and other setters; Href, Query, Search and the stored list compared after every step with the handle taken before the first call and afresh.",
+     TB + "; snapshot hook.", "DESIGN.md section 4/C12")
+prop("C13", True, "model_checking",
+     "UrlApi.tla Independence action property over three handles; " + HT + "; aliasing also read directly through the snapshot hook",
+     "Parse, resolve, clone, then any setter / SearchParams mutation on either side, depth-bounded exhaustively; ALL live handles are projected after every call (19 getters + stored list), so a write to the wrong object is seen at the step it happens.",
+     TB + "; snapshot hook.", "DESIGN.md section 4/C13")
+prop("C19", True, "model_checking",
+     "derived accessors defined as functions of the primary components in the spec (DerivedG, TLC invariant); " + HT,
+     "IsIPv4, IsIPv6, DecodedPort, Scheme, Query, Fragment, OpaquePath, IsSpecialScheme, Href(true) compared after every step of parse/resolve/setter/clone histories and on the host parse families.",
+     TB, "DESIGN.md section 4/C19")
+
 NOT_YET = "check under construction in this session (see DESIGN.md section 4 for the planned decision procedure)"
 
 def main():
